@@ -1,6 +1,6 @@
 (* C12 proofs, part C: update_quota (grant, cap, reactivation), the consumer step, enable/disable. *)
 From Coq Require Import List NArith Bool Lia PeanoNat.
-From LTV Require Import Params_gen.
+From LTV.C12 Require Import ParamsGen.
 From LTV.C12 Require Import Model ProofsA ProofsB.
 Import ListNotations.
 Local Open Scope N_scope.
@@ -136,12 +136,13 @@ Qed.
 (* ------------------------------------------------------------------ enable / disable / chunks *)
 Lemma enable_spec t : tl_inv t ->
   exists t', tl_enable t = Ok t' /\ tl_inv t' /\ enabled t' = true /\ held t' = held t /\
-             minc t' = minc t /\ maxc t' = maxc t.
+             minc t' = minc t /\ maxc t' = maxc t /\ (enabled t = false -> radded t' = 0) /\
+             act t' = act t /\ inact t' = inact t.
 Proof.
   intros I. unfold tl_enable. destruct (enabled t) eqn:En.
-  - exists t. splits; auto.
+  - exists t. splits; auto. discriminate.
   - destruct (i_dis _ I En) as (D1 & D2 & D3 & D4). rewrite D3.
-    exists (set_enabled t true). split; [destruct (act t); reflexivity|].
+    exists (fst (take_radded (set_enabled t true))). split; [destruct (act t); reflexivity|].
     destruct (inv_parts _ I) as (P1 & P2 & P3 & P4 & P5 & P6 & P7 & P8).
     split; [apply mk_inv; simp_tl; auto; intros; discriminate|].
     unfold held. simp_tl. splits; auto.
@@ -179,3 +180,23 @@ Qed.
 
 Lemma take_radded_same t : same_quota t (fst (take_radded t)).
 Proof. unfold same_quota, take_radded. simp_tl. splits; reflexivity. Qed.
+
+(* exact accounting of update_quota: the int32 result is q - e where e is what the one-tick cap
+   on carried-over unallocated quota dropped *)
+Lemma update_exact t q t' used acts : tl_inv t -> enabled t = true -> q <= Qmax ->
+  update_quota t q = Ok (t', used, acts) ->
+  exists e, used = signed_used q e /\ held t' + e = held t + q /\ e <= HB.
+Proof.
+  intros I En Hq. unfold update_quota. rewrite En. cbn [negb].
+  destruct (inv_parts _ I) as (P1 & P2 & P3 & P4 & P5 & (K1 & K2 & K3) & P7 & P8).
+  pose proof HB_lt as HBw.
+  rewrite (add32_small (unalloc t) (uu t)) by lia.
+  destruct (uq_loop (minc t) (maxc t) (inact t) (outst t) (unalloc t + uu t) []) as [[[moved ina'] o'] u'] eqn:EL.
+  assert (Hw : outst t + (unalloc t + uu t) < w32) by lia.
+  assert (Hcn : capped []) by constructor.
+  destruct (uq_loop_spec _ _ K2 K3 K1 _ _ _ _ _ _ _ _ Hw P5 Hcn EL) as (_ & Hou & _).
+  change (if q <? u' then (sub32 q (sub32 u' q), q) else (q, u')) with (cap_used q u').
+  destruct (cap_used_spec q u' ltac:(lia)) as (e & Ec & E1 & E2 & _).
+  rewrite Ec. intros E. injection E as <- <- _.
+  exists e. unfold held. simp_tl. splits; [reflexivity|lia|lia].
+Qed.
